@@ -29,6 +29,10 @@ pub const PATHS: &[&str] = &["valid-1", "valid-2", "valid-3", "none", "not-to-cr
 pub struct TxSpec {
     pub fee: u64,
     pub path: String,
+    /// "" = ordinary payment; "stake" = the same payment typed BlockStake (fee-paying, outputs ordinary): its
+    /// routing path counts towards the creator's work like any other
+    #[serde(default)]
+    pub ttype: String,
 }
 
 #[derive(Clone, Debug, Serialize, Deserialize)]
@@ -57,6 +61,11 @@ pub struct Plan {
     /// and signed by another key (a relayed solution); the payout oracle then runs on it as on any block.
     #[serde(default)]
     pub bad_ticket: Option<(usize, u8)>,
+    /// work mode: when the offered block carries a golden ticket, its golden-ticket transaction is solved and
+    /// signed by user 1, spends one of that user's outputs with this fee (`.0`) and carries a routing path of
+    /// this shape (`.1`): a ticket's fee counts as routing work like any other transaction's
+    #[serde(default)]
+    pub ticket_fee_path: Option<(u64, String)>,
 }
 
 const HB: u64 = 1000;
@@ -69,6 +78,7 @@ fn gen(seed: u64, tier: Tier) -> Plan {
             .map(|_| TxSpec {
                 fee: *rng.pick(&[0u64, 1_000, 20_000, 60_000, 150_000]) + rng.below(500),
                 path: if rng.chance(2, 3) { rng.pick(&["valid-1", "valid-2", "valid-3", "none"]).to_string() } else { rng.pick(PATHS).to_string() },
+                ttype: if rng.chance(1, 6) { "stake".to_string() } else { String::new() },
             })
             .collect();
         let mut dts: Vec<u64> = vec![];
@@ -78,7 +88,8 @@ fn gen(seed: u64, tier: Tier) -> Plan {
         dts.sort();
         let mid_chain = rng.chance(1, 4);
         let boundary = rng.chance(1, 5);
-        Plan { seed, mode: "work".into(), prefix: rng.range(1, 3) as usize, txs, dts, blocks: vec![], mid_chain, boundary, bad_ticket: None }
+        let ticket_fee_path = if rng.chance(1, 3) { Some((*rng.pick(&[1_000u64, 20_000, 150_000]) + rng.below(500), rng.pick(PATHS).to_string())) } else { None };
+        Plan { seed, mode: "work".into(), prefix: rng.range(1, 3) as usize, txs, dts, blocks: vec![], mid_chain, boundary, bad_ticket: None, ticket_fee_path }
     } else {
         let n = rng.range(4, if tier == Tier::Quick { 10 } else { 20 }) as usize;
         let gt_style = rng.below(4);
@@ -95,7 +106,7 @@ fn gen(seed: u64, tier: Tier) -> Plan {
             })
             .collect();
         let bad_ticket = if rng.chance(1, 2) { Some((rng.range(2, n as u64) as usize, rng.below(5) as u8)) } else { None };
-        Plan { seed, mode: "payout".into(), prefix: 0, txs: vec![], dts: vec![], blocks, mid_chain: false, boundary: false, bad_ticket }
+        Plan { seed, mode: "payout".into(), prefix: 0, txs: vec![], dts: vec![], blocks, mid_chain: false, boundary: false, bad_ticket, ticket_fee_path: None }
     }
 }
 
@@ -187,7 +198,7 @@ impl Scenario for C08 {
     fn meta(&self) -> Meta {
         Meta {
             level: "exploration",
-            rule: "two families. work (a fifth of its runs: one routed transaction whose fee is exactly the integer part of parent burn fee / elapsed at an offset where the fraction is 0.6..0.95, i.e. one nolan below the rounded requirement - must be refused): parent chain of 1-3 blocks, then the same transaction set (1-6/8 payments, fee classes 0..150k nolan, path shapes valid-1/2/3 hops, none, not ending at the creator, passing through the creator but ending elsewhere, forged hop signature, non-contiguous, self-hop) bundled at two timestamp offsets drawn from {0.001, 0.05, 0.2, 0.5, 0.9, 1.5, 1.999, 2.0, 2.5} heartbeats (+jitter), each offered to a fresh replica. Oracle: accepted => every path cryptographically valid, contiguous, no self-hop; and for offset < 2 heartbeats independently computed work (u128, halving per hop after the first, only paths ending at the creator) >= parent_burnfee/offset - 1; acceptance at the smaller offset implies acceptance at the larger; offset >= 2 heartbeats needs no work. payout: histories of 4-10/20 blocks with routed fee-paying transactions and four ticket patterns (every 2nd, every 3rd, every block, random); for every accepted block with a Fee transaction: each output goes to the ticket's key, to a hop recipient of a transaction in the blocks being paid (previous; and the one before when the previous had no ticket), or to the sender of a path-less transaction there; sum of outputs <= fees collected by those blocks (u128). In half of the payout runs one step first offers a rival block on the same parent whose golden ticket does not solve the parent's lottery (solved at the parent's difficulty against the grandparent's / the genesis block's / a made-up hash, or aimed at the parent but below its difficulty; only where the parent's difficulty is > 0, reached through the ticket-in-every-block pattern): it must not be accepted; a fifth kind lets the honest block carry a ticket solved by one key inside a golden-ticket transaction signed by another (the miner payout belongs to the solver). distinct_nontrivial = distinct (offset bucket, path-shape multiset, margin sign) resp. (payout history digest).",
+            rule: "two families. work (a fifth of its runs: one routed transaction whose fee is exactly the integer part of parent burn fee / elapsed at an offset where the fraction is 0.6..0.95, i.e. one nolan below the rounded requirement - must be refused): parent chain of 1-3 blocks, then the same transaction set (1-6/8 payments, fee classes 0..150k nolan, path shapes valid-1/2/3 hops, none, not ending at the creator, passing through the creator but ending elsewhere, forged hop signature, non-contiguous, self-hop) (one transaction in six typed BlockStake instead of Normal; in a third of the runs the block's golden-ticket transaction itself pays a fee from an output of its solver and carries one of the path shapes) bundled at two timestamp offsets drawn from {0.001, 0.05, 0.2, 0.5, 0.9, 1.5, 1.999, 2.0, 2.5} heartbeats (+jitter), each offered to a fresh replica. Oracle: accepted => every path cryptographically valid, contiguous, no self-hop; and for offset < 2 heartbeats independently computed work (u128, halving per hop after the first, only paths ending at the creator) >= parent_burnfee/offset - 1; acceptance at the smaller offset implies acceptance at the larger; offset >= 2 heartbeats needs no work. payout: histories of 4-10/20 blocks with routed fee-paying transactions and four ticket patterns (every 2nd, every 3rd, every block, random); for every accepted block with a Fee transaction: each output goes to the ticket's key, to a hop recipient of a transaction in the blocks being paid (previous; and the one before when the previous had no ticket), or to the sender of a path-less transaction there; sum of outputs <= fees collected by those blocks (u128). In half of the payout runs one step first offers a rival block on the same parent whose golden ticket does not solve the parent's lottery (solved at the parent's difficulty against the grandparent's / the genesis block's / a made-up hash, or aimed at the parent but below its difficulty; only where the parent's difficulty is > 0, reached through the ticket-in-every-block pattern): it must not be accepted; a fifth kind lets the honest block carry a ticket solved by one key inside a golden-ticket transaction signed by another (the miner payout belongs to the solver). distinct_nontrivial = distinct (offset bucket, path-shape multiset, margin sign) resp. (payout history digest).",
             real: &["BurnFee", "Transaction::generate_total_work/validate_routing_path/get_winning_routing_node", "Block::validate (work check, golden ticket, fee transaction)", "Block::find_winning_router", "Hop"],
             stubs: &["SimIo", "SimConfig", "vendored ahash"],
             assumptions: &["secp256k1/blake3 wrappers (verify) are trusted primitives of the oracle", "genesis period >> depth"],
@@ -295,6 +306,11 @@ impl Scenario for C08 {
                 let fee = spec.fee.min(inp.amount / 2);
                 let tag = w.next_ts_tag();
                 let mut tx = make_tx(&w.keys[user].clone(), &[inp.clone()], &[(w.keys[user].pk, inp.amount - fee)], prec.ts + tag, &tag.to_le_bytes());
+                if spec.ttype == "stake" {
+                    tx.transaction_type = TransactionType::BlockStake;
+                    tx.sign(&w.keys[user].sk);
+                    r.fault("stake_typed_fee_paying_tx", 1);
+                }
                 add_path(&w, &mut tx, user, &spec.path);
                 txs.push(tx);
             }
@@ -303,26 +319,60 @@ impl Scenario for C08 {
                 return r;
             }
             let creator_pk = w.keys[0].pk;
-            let mut total_work: u128 = 0;
-            let mut any_invalid_path = false;
+            let mut base_work: u128 = 0;
+            let mut base_invalid_path = false;
             for t in &txs {
                 match ref_work(t, &creator_pk) {
-                    Some(x) => total_work += x,
-                    None => any_invalid_path = true,
+                    Some(x) => base_work += x,
+                    None => base_invalid_path = true,
                 }
             }
+            // the input of a fee-paying golden-ticket transaction, if this plan has one
+            let ticket_input: Option<SlipRef> = ledger.unspent_of(&w.keys[1].pk).into_iter().find(|s| !used.contains(&s.key()) && s.amount > 400_000);
             let mut accepted: Vec<(u64, bool)> = vec![];
             for dt_pm in &plan.dts {
                 let dt = (*dt_pm * HB / 1000).max(1);
                 let gt = (prec.id + 1) % 2 == 0;
                 let spec = BlockSpec { parent: prec.hash, ts: prec.ts + dt, txs: txs.clone(), gt, creator: 0 };
-                let b = match crate::util::guarded(|| build_block(&w.builder, &w.keys, spec)) {
+                let mut total_work = base_work;
+                let mut any_invalid_path = base_invalid_path;
+                let built = match (&plan.ticket_fee_path, &ticket_input, gt) {
+                    (Some((fee, shape)), Some(inp), true) => {
+                        let pblock: Block = w.block(parent);
+                        if pblock.difficulty > 18 {
+                            r.discarded = true;
+                            return r;
+                        }
+                        let solver = w.keys[1].clone();
+                        let ticket = mine_gt(prec.hash, pblock.difficulty, &solver, 0x7e57);
+                        let wref = &w;
+                        let edit = move |t: &mut Transaction| {
+                            t.add_from_slip(inp.to_slip());
+                            let mut o = saito_core::core::consensus::slip::Slip::default();
+                            o.public_key = solver.pk;
+                            o.amount = inp.amount - *fee;
+                            t.add_to_slip(o);
+                            t.sign(&solver.sk);
+                            add_path(wref, t, 1, shape);
+                        };
+                        r.fault("fee_paying_golden_ticket_with_path", 1);
+                        crate::util::guarded(|| build_block_custom(&w.builder, &w.keys, spec, Some((ticket, 1)), Some(&edit)))
+                    }
+                    _ => crate::util::guarded(|| build_block(&w.builder, &w.keys, spec)),
+                };
+                let b = match built {
                     Ok(Ok(b)) => b,
                     _ => {
                         r.discarded = true;
                         return r;
                     }
                 };
+                if let Some(g) = b.transactions.iter().find(|t| t.transaction_type == TransactionType::GoldenTicket && !t.path.is_empty()) {
+                    match ref_work(g, &creator_pk) {
+                        Some(x) => total_work += x,
+                        None => any_invalid_path = true,
+                    }
+                }
                 let bytes = b.serialize_for_net(saito_core::core::consensus::block::BlockType::Full);
                 let mut n = Node::new(&w.cfg, &w.keys[1].clone());
                 let joined_here = plan.mid_chain && chain.len() >= 2;
